@@ -21,7 +21,7 @@
    ([mul_statements_hold], [ops_ok_of_wf], [text_ok_holds]).  No theorem below is relative to
    anything but [ctor_wf] / [op_wf] / canonicity. *)
 From BigNum Require Import Base BaseLemmas AddSub Div Bits Sign Mul SpecBits SpecBytes Hist SpecHist HistProofs
-  Extracted InstHist.
+  Extracted InstHist InstSign.
 From Coq Require Import Sorting.Permutation Sorting.Sorted.
 Open Scope Z_scope.
 
@@ -80,20 +80,20 @@ Proof. exact ieq_iff. Qed.
 Print Assumptions C04_ieq_iff.
 
 Theorem C04_cmp : forall a b, ocanon a -> ocanon b -> okind a = okind b ->
-  ocmp a b = Ret (oval a ?= oval b).
-Proof. exact ocmp_spec. Qed.
+  ocmp Extracted.signs a b = Ret (oval a ?= oval b).
+Proof. exact (fun a b => ocmp_spec Extracted.signs a b sign_params_ok). Qed.
 Print Assumptions C04_cmp.
 
 Theorem C04_max_min : forall a b, ocanon a -> ocanon b -> okind a = okind b ->
-  (exists m, omax a b = Ret m /\ (m = a \/ m = b) /\ oval m = Z.max (oval a) (oval b)) /\
-  (exists m, omin a b = Ret m /\ (m = a \/ m = b) /\ oval m = Z.min (oval a) (oval b)).
-Proof. intros; split; [apply omax_spec|apply omin_spec]; auto. Qed.
+  (exists m, omax Extracted.signs a b = Ret m /\ (m = a \/ m = b) /\ oval m = Z.max (oval a) (oval b)) /\
+  (exists m, omin Extracted.signs a b = Ret m /\ (m = a \/ m = b) /\ oval m = Z.min (oval a) (oval b)).
+Proof. intros; split; [apply omax_spec|apply omin_spec]; auto using sign_params_ok. Qed.
 Print Assumptions C04_max_min.
 
 (** sorting with [cmp] yields a permutation in numeric order *)
 Theorem C04_sort : forall k l, Forall (fun s => ocanon s /\ okind s = k) l ->
-  exists r, osort l = Ret r /\ Permutation l r /\ StronglySorted (fun a b => oval a <= oval b) r.
-Proof. exact osort_spec. Qed.
+  exists r, osort Extracted.signs l = Ret r /\ Permutation l r /\ StronglySorted (fun a b => oval a <= oval b) r.
+Proof. exact (fun k l => osort_spec Extracted.signs k l sign_params_ok). Qed.
 Print Assumptions C04_sort.
 
 (** ** Hash: the word stream fed to the hasher is a function of the integer, and an injective one *)
@@ -133,13 +133,13 @@ Theorem C04_indistinguishable : forall ca opsa cb opsb a b,
   history P ca opsa = Ret a -> history P cb opsb = Ret b -> okind a = okind b ->
   (oval a = oval b -> a = b) /\
   oeq a b = Ret (oval a =? oval b) /\
-  ocmp a b = Ret (oval a ?= oval b) /\
+  ocmp Extracted.signs a b = Ret (oval a ?= oval b) /\
   (oval a = oval b -> hash_stream a = hash_stream b) /\
   (hash_stream a = hash_stream b -> oval a = oval b) /\
   (forall e, In e (exports_for a) -> export_of P e a = sexport (okind a) e (oval a)) /\
   (forall e, oval a = oval b -> export_of P e a = export_of P e b) /\
-  (exists m, omax a b = Ret m /\ (m = a \/ m = b) /\ oval m = Z.max (oval a) (oval b)) /\
-  (exists m, omin a b = Ret m /\ (m = a \/ m = b) /\ oval m = Z.min (oval a) (oval b)) /\
+  (exists m, omax Extracted.signs a b = Ret m /\ (m = a \/ m = b) /\ oval m = Z.max (oval a) (oval b)) /\
+  (exists m, omin Extracted.signs a b = Ret m /\ (m = a \/ m = b) /\ oval m = Z.min (oval a) (oval b)) /\
   (osign a = NoSign <-> oval a = 0).
 Proof.
   intros ca opsa cb opsb a b Hca Hwa Hcb Hwb Ea Eb K.
@@ -185,8 +185,8 @@ Theorem C04_operators_u : forall a b, canon a -> canon b ->
 Proof. intros; split; [apply uord_spec|apply une_spec]; auto. Qed.
 Print Assumptions C04_operators_u.
 Theorem C04_operators_i : forall x y, icanon x -> icanon y ->
-  iord x y = Ret (zord (ival x) (ival y)) /\ ine x y = Ret (negb (ival x =? ival y)).
-Proof. intros; split; [apply iord_spec|apply ine_spec]; auto. Qed.
+  iord Extracted.signs x y = Ret (zord (ival x) (ival y)) /\ ine x y = Ret (negb (ival x =? ival y)).
+Proof. intros; split; [apply iord_spec|apply ine_spec]; auto using sign_params_ok. Qed.
 Print Assumptions C04_operators_i.
 
 (** arbitrary::Arbitrary on ANY byte string: the canonical value of the decoded digit vector
